@@ -92,7 +92,10 @@ def run_tracker(case):
         f = d / "grid.nc"
         lab.make_grid_forcing(f, [0], imax=gs["imax"], jmax=gs["jmax"], N=gs["N"], h=gs["h"], mask=gs["mask"], dx=gs["dx"], hc=gs["hc"])
         grid = Grid(filename=f, subgrid=case.get("subgrid"))
-    tk = TimeKeeper(start=lab.tstr(0), stop=lab.tstr(10 ** 6), dt=case["dt"])
+    if case.get("rev"):     # a backward run: the tracker itself reverses the vertical velocity
+        tk = TimeKeeper(start=lab.tstr(10 ** 6), stop=lab.tstr(0), dt=case["dt"], time_reversal=True)
+    else:
+        tk = TimeKeeper(start=lab.tstr(0), stop=lab.tstr(10 ** 6), dt=case["dt"])
     st = State()
     P = np.array(case["particles"], dtype=float)
     st.append(X=P[:, 0], Y=P[:, 1], Z=P[:, 2])
@@ -140,6 +143,8 @@ def model_request(case):
             sd = (2 * Dz / dt) ** 0.5
             wd = [sd * x for x in draws[pos:pos + npart]]; pos += npart
         wa = case["w"][n] if case.get("w") else [0.0] * npart
+        if case.get("rev"):
+            wa = [-x for x in wa]
         forc.append([[rat_s(a), rat_s(b), rat_s(c), rat_s(d_)] for a, b, c, d_ in zip(du, dv, wd, wa)])
     rq = dict(op="tracker", file=file_json(case["grid"]), scheme=case["scheme"] or "none", dt=rat_s(case["dt"]),
               vertadv=bool(case.get("vertadv", False)), vertdiff=Dz > 0, u=[str(Fraction(x)) for x in case["cu"]],
